@@ -7,5 +7,5 @@ sys.path.insert(0, os.path.dirname(os.path.dirname(os.path.abspath(__file__))))
 from vcheck import repo, core, extract, astx  # noqa: E402
 
 with core.quiet():
-    changed = extract.gen_fem() + extract.gen_diffgeo() + extract.gen_measures() + extract.gen_vertex_measures() + extract.gen_transfer() + extract.gen_heat() + extract.gen_misc() + extract.gen_level() + extract.gen_solver_aniso() + extract.gen_curv_tria() + extract.gen_poisson() + extract.gen_solver_glue() + extract.gen_flow() + extract.gen_geo_glue() + extract.gen_shapedna() + extract.gen_dispatch() + [astx.gen_effects()[0], astx.gen_eigs()[0]]
+    changed = extract.gen_fem() + extract.gen_diffgeo() + extract.gen_measures() + extract.gen_vertex_measures() + extract.gen_transfer() + extract.gen_heat() + extract.gen_misc() + extract.gen_level() + extract.gen_solver_aniso() + extract.gen_curv_tria() + extract.gen_poisson() + extract.gen_solver_glue() + extract.gen_flow() + extract.gen_geo_glue() + extract.gen_shapedna() + extract.gen_dispatch() + extract.gen_tet_orient() + extract.gen_tri_orient() + extract.gen_refine() + [astx.gen_effects()[0], astx.gen_eigs()[0]]
 print("generated files rewritten: %d" % sum(bool(c) for c in changed))
